@@ -10,7 +10,7 @@ import random
 
 import z3
 
-from vlib import circ, circgen, symeval
+from vlib import circ, circgen, forkexec, symeval, symnet
 from checks import mutators
 from checks.common import REPLAY_PRELUDE
 
@@ -37,8 +37,8 @@ def call_key(call):
     return k
 
 
-def replay_src(c0, calls):
-    return (REPLAY_PRELUDE + circ.circ_src(c0) + "\nimport copy\nfrom checks import mutators\n"
+def replay_src(c0, calls, extra=""):
+    return (REPLAY_PRELUDE + circ.circ_src(c0) + extra + "\nimport copy\nfrom checks import mutators\n"
             f"calls={calls!r}\nbad=[]\n"
             "from checks.c02 import check_copy_independent\n"
             "for call in calls:\n"
@@ -168,6 +168,104 @@ def unit(p, item, tier, seed):
             run_sequence(p, name + "/history", c0, calls)
 
 
+SYM_KINDS = ["remove_gate", "rename_gate", "mark_as_output", "set_outputs", "order_outputs", "add_gate", "emplace_gate", "reinsert", "add_inputs", "replace_inputs", "copy"]
+
+
+def symbolic_step_unit(p, item, tier, seed):
+    """One mutator step from an *arbitrary* well-formed pre-state of a shape: operands and outputs are symbolic
+    labels, the users index is the lazy inverse of the initial operands (the invariant is assumed, and whether an
+    unread gate is absent from the index or present with an empty list is a free choice), the call's label
+    arguments are symbolic too.  z3 proves that the explored paths cover every choice."""
+    n_in, arities, n_out, kind = item
+    net = symnet.SymNetlist(n_in, arities, n_out, tag="w", index_representation=True)
+    if not net.feasible():
+        return
+    a0, a1 = z3.Int("w_arg0"), z3.Int("w_arg1")
+    base = net.base() + [z3.And(a0 >= 0, a0 < len(net.nodes)), z3.And(a1 >= 0, a1 < len(net.nodes))]
+
+    def make_call():
+        x, y = symnet.SymLabel(a0, net.nodes), symnet.SymLabel(a1, net.nodes)
+        if kind in ("remove_gate", "mark_as_output"):
+            return dict(kind=kind, label=x)
+        if kind == "rename_gate":
+            return dict(kind=kind, old=x, new="fresh")
+        if kind in ("set_outputs", "order_outputs"):
+            return dict(kind=kind, labels=[x, y])
+        if kind in ("add_gate", "emplace_gate"):
+            return dict(kind=kind, label="fresh", type="XOR", operands=[x, y])
+        if kind == "reinsert":
+            return dict(kind=kind, label=x, type="NOR", operands=[y, y])
+        if kind == "add_inputs":
+            return dict(kind=kind, labels=["fresh", "fresh2"])
+        if kind == "replace_inputs":
+            return dict(kind=kind, true=[x], false=[y])
+        return dict(kind=kind)
+
+    def plain_call(call):
+        return {k: ([symnet.plain(e) for e in v] if isinstance(v, list) else symnet.plain(v)) for k, v in call.items()}
+
+    def body():
+        c = net.build()
+        call = make_call()
+        try:
+            res = mutators.apply_call(c, call)
+        except Exception as e:  # noqa: BLE001
+            return ("raised", type(e).__name__, plain_call(call))
+        probs = list(circ.wf_problems(res))
+        if not probs and kind == "copy":
+            probs = check_copy_independent(None, c, res, None, None)
+        if not probs:
+            try:
+                full = res.evaluate_full_circuit({i: False for i in res.inputs})
+                if {symnet.plain(k) for k in full} != set(res.gates):
+                    probs.append("evaluate_full_circuit does not reach every gate")
+            except Exception as e:  # noqa: BLE001
+                probs.append(f"evaluate_full_circuit raised {type(e).__name__}: {e}")
+        return ("ok", probs, plain_call(call))
+
+    paths, stats = forkexec.explore(body, base=base, max_paths=400000, catch=(Exception,))
+    total = len(net.nodes) ** (n_out + 2)
+    for j, a in enumerate(arities):
+        total *= len(net.universe(j)) ** a
+    p.case(("symstep", item), sample=f"{kind} from every well-formed pre-state with {n_in} inputs, gate arities {arities}, {n_out} outputs and every label argument: "
+           f"{total} (state, call) pairs covered by {stats['paths']} paths")
+    p.count("symbolic_state_call_pairs", total)
+    p.count("symbolic_paths", stats["paths"])
+    p.count("feasibility_queries", stats["queries"])
+    p.solver_s += stats.get("solver_s", 0.0)
+    p.queries["unsat" if stats["covered"] else "unknown"] += 1
+    if not stats["covered"]:
+        p.error(f"coverage not proven for {item}")
+    for path in paths:
+        if path.exc is not None:
+            probs, call = [f"harness raised {type(path.exc).__name__}: {path.exc}"], None
+        elif path.result[0] == "raised":
+            p.count("calls_raising")
+            continue
+        else:
+            _, probs, call = path.result
+            p.count("calls_returning")
+        if not probs:
+            continue
+        m = symnet.path_model(path, base)
+        p.queries["sat" if m is not None else "unknown"] += 1
+        if m is None or call is None:
+            p.error(f"symbolic step {item}: {probs[:2]} on a path without a model")
+            continue
+        cc = net.concrete_circuit(m)
+        fix = "\n"
+        for lab, v in net.absent_vars.items():
+            if not any(lab in g.operands for g in cc.gates.values()):
+                fix += (f"c._gate_to_users.pop({lab!r}, None)\n" if z3.is_true(m.eval(v, model_completion=True)) else f"c._gate_to_users.setdefault({lab!r}, [])\n")
+        p.violation(f"wf:{kind}:{category(probs[0])}:symbolic", f"after {call} on {circ.describe(cc)}: {probs[:3]}", replay_src(cc, [call], extra=fix))
+        return
+
+
+def symbolic_items(thorough):
+    shapes = [(1, (1,), 1), (2, (2,), 1), (1, (1, 1), 1), (2, (2, 1), 1), (2, (1, 2), 2)] + ([(2, (2, 2), 1), (2, (2, 2), 2), (2, (2, 1, 2), 1), (1, (1, 2, 2), 1), (3, (2, 2), 1)] if thorough else [])
+    return [(n_in, ar, n_out, kind) for n_in, ar, n_out in shapes for kind in SYM_KINDS]
+
+
 def canary(p):
     """The invariant must flag a deliberately stale users index."""
     c = circgen.build(["a", "b"], [("g", G.AND, ("a", "b"))], ["g"])
@@ -192,4 +290,10 @@ def run(rep, tier, seed, only=None):
     rep.rule = "case = (pre-state, call sequence) whose calls all returned; distinct by pre-state snapshot + calls"
     rep.explanation = "bounded exploration with an independently computed invariant"
     canary(rep)
+    if only is None or "symbolic" in only:
+        rep.pmap(symbolic_step_unit, symbolic_items(thorough))
+        rep.bounds["symbolic step"] = ("every well-formed pre-state (all operand/output choices, both index representations of unread gates) with <=2 inputs and gate arities up to (2,2) (quick) / (2,1,2), 3 inputs (thorough) "
+                                       "x every label argument of remove/rename/mark/set_outputs/order_outputs/add/emplace/reinsert/add_inputs/replace_inputs/copy; path coverage proven by z3")
+    if only == "symbolic":
+        return
     rep.pmap(unit, [seed * 173 + s for s in range(192 if thorough else 64)])
